@@ -31,9 +31,12 @@ func runCmac(c *ctx) error {
 	for _, n := range []int{0, 16, 40, 64} {
 		add(hx.UnH("2b7e151628aed2a6abf7158809cf4f3c"), n, 0, 0)
 	}
-	maxLen := c.pick(96, 1024)
+	maxLen := 1024 // every length of the property's range in both tiers (once each above 96 in the quick tier)
 	for n := 0; n <= maxLen; n++ {
 		reps := c.pick(3, 4)
+		if n > 96 && !c.thorough() {
+			reps = 1
+		}
 		for i := 0; i < reps; i++ {
 			spare := 0
 			switch c.rng.Intn(4) {
